@@ -144,6 +144,9 @@ func c01Case(c *ctx, sc schemaSpec, tn string, wrapped bool, ops []setOp, prepat
 	t := *sc.spec(tn)
 	schema := sc.build()
 	fields := t.fieldNames()
+	if how != "dictionary" {
+		shuffle(c.r, fields) // "all of its fields": in whatever order the caller lists them
+	}
 	var rels []string
 	for _, f := range t.fields {
 		if f.rel {
@@ -162,7 +165,7 @@ func c01Case(c *ctx, sc schemaSpec, tn string, wrapped bool, ops []setOp, prepat
 		for _, f := range append([]string{"id"}, fields...) {
 			before[f] = r.Get(f)
 		}
-		out := jsonapi.MarshalResource(r, prepath, fields, relData)
+		out := jsonapi.MarshalResource(r, prepath, append([]string{}, fields...), relData)
 		tree := parseJSON(out)
 		if tree == nil {
 			obs = oC("invalid-json")
@@ -208,6 +211,101 @@ func c01Case(c *ctx, sc schemaSpec, tn string, wrapped bool, ops []setOp, prepat
 	c.count(fmt.Sprintf("wrapped=%v", wrapped))
 	k := c.add("roundtrip", desc, feature, len(ops) == 0,
 		fmt.Sprintf("(run_roundtrip %s %s %s %s %s %s %s)", env.gallina(), sc.gallina(), gNewRes(t, wrapped), gOps(ops), gStr(prepath), gStrs(fields), gRelData(relData)),
+		obs, key, detail)
+	k.Replay = how
+}
+
+// c01Collection: resources of two types (soft and struct-backed mixed) marshaled
+// through MarshalCollection and read back with UnmarshalCollection.
+func c01Collection(c *ctx, sc schemaSpec, members []resSpec, prepath string, how string) {
+	schema := sc.build()
+	fieldsMap := map[string][]string{}
+	relData := map[string][]string{}
+	for _, t := range sc.types {
+		fs := t.fieldNames()
+		shuffle(c.r, fs)
+		fieldsMap[t.name] = fs
+		var rels []string
+		for _, f := range t.fields {
+			if f.rel {
+				rels = append(rels, f.name)
+			}
+		}
+		relData[t.name] = rels
+	}
+	env := newStdEnv()
+	var gmem, descs []string
+	for _, m := range members {
+		for _, o := range m.ops {
+			env.addValue(o.val)
+		}
+		gmem = append(gmem, gPair(gNewRes(*sc.spec(m.tn), m.wrapped), gOps(m.ops)))
+		descs = append(descs, fmt.Sprintf("%s wrapped=%v", m.tn, m.wrapped))
+	}
+	var obs, key, detail string
+	p, pv := guard(func() {
+		col := &jsonapi.Resources{}
+		var orig []jsonapi.Resource
+		for _, m := range members {
+			r := buildRes(*sc.spec(m.tn), m.wrapped, m.ops)
+			orig = append(orig, r)
+			col.Add(r)
+		}
+		fm := map[string][]string{}
+		for k, v := range fieldsMap {
+			fm[k] = append([]string{}, v...)
+		}
+		out := jsonapi.MarshalCollection(col, prepath, fm, relData)
+		tree := parseJSON(out)
+		if tree == nil {
+			obs = oC("invalid-json")
+			key, detail = "marshal-output-not-json", string(out)
+			return
+		}
+		env.addTree(tree)
+		back, err := jsonapi.UnmarshalCollection(out, schema)
+		if err != nil {
+			obs = oL([]string{tree.obs(), oC("fail")})
+			key, detail = "roundtrip-rejected", fmt.Sprintf("%v on %s", err, out)
+			return
+		}
+		var it []string
+		for i := 0; i < back.Len(); i++ {
+			it = append(it, oResource(back.At(i), append([]string{"id"}, fieldsMap[back.At(i).GetType().Name]...)))
+		}
+		obs = oL([]string{tree.obs(), oOk(oL(it))})
+		if back.Len() != len(orig) {
+			key, detail = "roundtrip-collection-length", fmt.Sprintf("%d members became %d", len(orig), back.Len())
+			return
+		}
+		for i, r := range orig {
+			r2 := back.At(i)
+			t := *sc.spec(members[i].tn)
+			if r2.GetType().Name != t.name || r2.Get("id") != r.Get("id") {
+				key, detail = "roundtrip-type-or-id", fmt.Sprintf("member %d", i)
+			}
+			for _, f := range t.fields {
+				if !sameField(f, r.Get(f.name), r2.Get(f.name)) {
+					key, detail = "roundtrip-value-differs", fmt.Sprintf("member %d %s.%s: %s became %s", i, t.name, f.name, descValue(r.Get(f.name)), descValue(r2.Get(f.name)))
+				}
+			}
+		}
+	})
+	if p {
+		obs = oPanic()
+		key, detail = "roundtrip-panics", fmt.Sprint(pv)
+	}
+	var gfm []string
+	ks := make([]string, 0, len(fieldsMap))
+	for k := range fieldsMap {
+		ks = append(ks, k)
+	}
+	sort.Strings(ks)
+	for _, k := range ks {
+		gfm = append(gfm, gPair(gStr(k), gStrs(fieldsMap[k])))
+	}
+	k := c.add("collection", fmt.Sprintf("Resources [%s] prepath=%q", strings.Join(descs, "; "), prepath), fmt.Sprintf("members=%d", len(members)), len(members) == 0,
+		fmt.Sprintf("(run_collection_roundtrip %s %s %s %s %s %s)", env.gallina(), sc.gallina(), gList(gmem), gStr(prepath), gList(gfm), gRelData(relData)),
 		obs, key, detail)
 	k.Replay = how
 }
@@ -292,8 +390,22 @@ func runC01(c *ctx) {
 		}
 		c01Case(c, sc, t.name, wrapped, c01Ops(c.r, t, c.r.bool()), pick(c.r, []string{"", "/", "http://h", "http://h/p/"}), "random")
 	}
+	// the collection route, members of two types, soft and struct-backed mixed
+	for i := 0; i < n/6; i++ {
+		t := randTypeSpec(c.r, "t", 6, []string{"other"})
+		o2 := typeSpec{name: "other", fields: []fieldSpec{{name: "title", code: 1}, {name: "n", code: 4, nullable: true}, {rel: true, name: "owner", toOne: true, target: "t"}}}
+		sc := schemaSpec{types: []typeSpec{o2, t}, wrapped: map[string]bool{"t": c.r.bool(), "other": c.r.bool()}}
+		var members []resSpec
+		for j := c.r.intn(5); j > 0; j-- {
+			tn := pick(c.r, []string{"t", "other"})
+			ops := c01Ops(c.r, *sc.spec(tn), c.r.bool())
+			ops[0] = setOp{"id", fmt.Sprintf("m%d", j)}
+			members = append(members, resSpec{tn: tn, wrapped: sc.wrapped[tn], ops: ops})
+		}
+		c01Collection(c, sc, members, pick(c.r, []string{"", "/", "http://h/p/"}), "collection")
+	}
 }
 
 func init() {
-	register("C01", []string{"Model.GoTime", "Gen.TypeGo", "Model.Schema", "Model.Value", "Model.Json", "Model.SoftRes", "Model.Wrapper", "Model.Resource", "Model.Unmarshal", "Model.C17", "Model.C01"}, runC01)
+	register("C01", []string{"Model.GoTime", "Gen.TypeGo", "Model.Schema", "Model.Value", "Model.Json", "Model.SoftRes", "Model.Wrapper", "Model.Resource", "Model.Unmarshal", "Model.Document", "Model.C17", "Model.C01", "Model.C01Coll"}, runC01)
 }
